@@ -284,6 +284,21 @@ func buildTargets(base []string, depth int, hostPort string) []target {
 			}
 		}
 	}
+	// dot segments that climb OUT of /internal once decoded / cleaned, bound whole to a path parameter or a wildcard:
+	// the router dispatches on the path as sent, so these still reach the /internal handler
+	for _, prefix := range []string{"/internal/p/", "/internal/w/", "/internal/w/a/", "/internal/probe/"} {
+		for _, unit := range []string{"../", "..%2F", "..%2f", "%2e%2e/", "%2e%2e%2f", "%2E%2E%2F", ".%2e/", "%2e./", "..;/", "..\\", "..%5C", "..%5c"} {
+			for k := 1; k <= 4; k++ {
+				for _, tail := range []string{"x", "public/probe", "", "status"} {
+					pth := prefix + strings.Repeat(unit, k) + tail
+					for _, f := range []struct{ n, t string }{{"origin", pth}, {"origin-query", pth + "?q=1"}, {"abs-http", "http://" + hostPort + pth}} {
+						add(target{Method: "GET", Target: f.t, Version: "HTTP/1.1", Host: hostPort,
+							Desc: prefix + " climb-out:" + unit + " " + f.n + " k=" + fmt.Sprint(k) + " tail=" + tail})
+					}
+				}
+			}
+		}
+	}
 	// forms without a path
 	for _, m := range []string{"OPTIONS", "GET", "CONNECT"} {
 		add(target{Method: m, Target: "*", Version: "HTTP/1.1", Host: hostPort, Desc: "asterisk"})
@@ -761,6 +776,58 @@ func TestVerifC04(t *testing.T) {
 			}
 		}
 		return
+	}
+
+	// ---- listener configurations with a degenerate internal address: the engine must refuse them, or at least
+	// must not serve an internal-listener route on the public listener
+	if r.Mine(0) {
+		for _, addr := range []string{"", " ", ":", "-"} {
+			e := nutshttp.New(func() {}, nil)
+			cfg := e.Config().(*nutshttp.Config)
+			cfg.Log = nutshttp.LogNothingLevel
+			cfg.Internal.Address = addr
+			cfg.Public.Address = freePort(t)
+			cfg.Internal.Auth = nutshttp.AuthConfig{Type: nutshttp.BearerTokenAuthV2, AuthorizedKeysPath: keysPath, Audience: audience}
+			err := e.Configure(core.ServerConfig{Strictmode: true, DIDMethods: []string{"web"}})
+			r.Eval("listener-config|internal-address=" + fmt.Sprintf("%q", addr))
+			r.Outcome(fmt.Sprintf("degenerate internal address %q: configure error=%v", addr, err != nil))
+			if err != nil {
+				continue
+			}
+			for _, route := range probeRoutes {
+				route := route
+				e.Router().Add("GET", route, func(c echo.Context) error {
+					hitsMu.Lock()
+					hits = append(hits, hit{Engine: "degenerate", Route: route})
+					hitsMu.Unlock()
+					return c.String(200, "ran")
+				})
+			}
+			_ = e.Start()
+			up := false
+			for i := 0; i < 200 && !up; i++ {
+				if c, err := net.DialTimeout("tcp", cfg.Public.Address, time.Second); err == nil {
+					c.Close()
+					up = true
+				} else {
+					time.Sleep(5 * time.Millisecond)
+				}
+			}
+			if up {
+				takeHits()
+				for _, pth := range []string{"/internal/probe", "/internal", "/status", "/status/diagnostics", "/metrics", "/health"} {
+					send(cfg.Public.Address, target{Method: "GET", Target: pth, Version: "HTTP/1.1", Host: "x"}.raw(nil))
+				}
+				for _, h := range takeHits() {
+					if isInternalListenerRoute(h.Route) {
+						r.Violation("C04|public-listener|degenerate-internal-address|"+h.Route,
+							fmt.Sprintf("internal address %q is accepted and handler %s is served by the public listener", addr, h.Route),
+							map[string]any{"internal_address": addr})
+					}
+				}
+			}
+			_ = e.Shutdown()
+		}
 	}
 
 	depth := 1
